@@ -89,11 +89,12 @@ def make_stock(rng, kind=None, dtype=None, cost=None, dt=None):
     return s
 
 
-def make_derivative(rng, stock, kind=None, maturity=None, n_steps=None):
+def make_derivative(rng, stock, kind=None, maturity=None, n_steps=None, clauses=None):
     kind = kind or pick(rng, DERIVS)
     if maturity is None:
         k = n_steps if n_steps is not None else int(pick(rng, [1, 2, 3, 5, 8, 20]))
-        maturity = k * stock.dt
+        # mostly whole numbers of steps, sometimes a maturity between two grid points
+        maturity = (k + float(pick(rng, [0.0, 0.0, 0.0, 0.0, 0.5, 0.3]))) * stock.dt if n_steps is None else k * stock.dt
     strike = float(pick(rng, [1.0, 1.0, 0.9, 1.1, 1.25, 0.8]))
     call = bool(rng.random() < 0.6)
     if kind == "european":
@@ -111,7 +112,30 @@ def make_derivative(rng, stock, kind=None, maturity=None, n_steps=None):
     else:
         raise ValueError(kind)
     d._pfv_kind = kind
+    d._pfv_clauses = []
+    if clauses is None:
+        clauses = rng.random() < 0.25
+    if clauses:
+        for nm in [CLAUSES[i] for i in rng.permutation(len(CLAUSES))[: int(rng.integers(1, 3))]]:
+            d.add_clause(nm, CLAUSE_FNS[nm])
+            d._pfv_clauses.append(nm)
     return d
+
+
+def _knockout(derivative, payoff):
+    return payoff.where(derivative.ul().spot.max(-1).values < 1.04, torch.zeros_like(payoff))
+
+
+def _cap(derivative, payoff):
+    return payoff.clamp(max=0.03)
+
+
+def _scale_shift(derivative, payoff):
+    return 2.0 * payoff + 0.01
+
+
+CLAUSES = ["knockout", "cap", "scale_shift"]
+CLAUSE_FNS = {"knockout": _knockout, "cap": _cap, "scale_shift": _scale_shift}
 
 
 def bs_pricer(derivative):
@@ -272,6 +296,7 @@ def scenario(rng, dtype=None, stock_kind=None, deriv_kind=None, hedge_kind=None,
         "dt": stock.dt,
         "cost": stock.cost,
         "inputs": [fname(f) for f in hedger.inputs.features],
+        "clauses": list(derivative._pfv_clauses),
     }
     return derivative, hedge, hedger, n_paths, desc
 
